@@ -30,6 +30,13 @@ RULE = ("table pairs as for C09 (0-8 rows, 0-3 payload columns, 1-3 key columns,
         "JSON; non-trivial = at least one unmatched row on EACH side.")
 EXHAUSTIVE = {"quick": False, "thorough": False}
 DESIGN_REF = "DESIGN.md section 4, C09 / C10 / C11"
+LEVEL_TEXT = ("theorems (all tables / all key functions): join and full_join hold exactly left_pairs / full_pairs with "
+              "None padding; every left row is kept by the left join, every row of both tables by the full join, no "
+              "row pair twice; inner is a sublist of left is a sublist of full; full_join(L,R) is a permutation of "
+              "the swapped full_join(R,L)")
+LEVEL_NOTE = ("Trusted: Coq 8.16.1 kernel and vm_compute; the hand-written model Model/Join.v (tied to table.py by the "
+              "correspondence check on the generated table pairs only); the dict/set-as-list assumption; the harness. "
+              "The relational consequences are also checked directly on the implementation's outputs by the oracle.")
 
 AUX = (("inner", "inner", "many_to_many", False), ("left", "left", "many_to_many", False),
        ("full", "full", "many_to_many", False), ("fullswap", "full", "many_to_many", True))
@@ -76,7 +83,7 @@ def _valid(c):
 
 
 def streams(rng, tier):
-    nrand, nsmall, nun, nem, nstr, nref = (350, 250, 300, 120, 150, 80) if tier == "quick" else (1500, 800, 1500, 300, 900, 200)
+    nrand, nsmall, nun, nem, nstr, nref = (500, 350, 450, 150, 200, 80) if tier == "quick" else (3000, 1500, 3000, 400, 1500, 250)
     out = []
 
     def with_mirror(cs):
